@@ -190,6 +190,20 @@ CHECKS.update({
             "DESIGN.md section 4 C18"),
 })
 
+CHECKS.update({
+    "C10": ("Hypothesis model-based testing over update histories: generated operator pipelines compiled step by step in "
+            "one compiler, interleaved with in-place perturbations, SGD / Adam steps, resets and state-dict loads; after "
+            "every step each derived circuit is compared with its defining relation on the CURRENT compiled outputs of "
+            "its operands and with the numpy reference; storage-subset invariant for learnable tensors",
+            "Exploration: histories of <= 10 (quick) / 30 (thorough) steps over pipelines of <= 3 operators and <= 3 "
+            "variables under drawn semiring / fold / optimize; relations: brute-force sums over Z, products in "
+            "Kronecker order, autograd derivatives, conjugates, overwritten columns, stacking; no recompilation between "
+            "updates.",
+            "Trusted: vlib/ref.py + vlib/ops.py (reference at the current values read back through the state map), "
+            "torch autograd for the differentiate relation.",
+            "DESIGN.md section 4 C10"),
+})
+
 NOT_APPLICABLE = {}
 
 
